@@ -1,7 +1,7 @@
 """C05 - Storage and interchange are lossless (structural clauses)."""
 from __future__ import annotations
 
-from . import scopes
+from . import scopes, lib_mem
 from sa.schema import load_schemas
 from . import lib_schema, lib_module, lib_py, lib_file
 
@@ -34,3 +34,4 @@ def run(ctx):
                                                            "TableCollection_equals", "TableCollection_load", "TreeSequence_load")})
     lib_py.kw_forward(ctx, py, mods=("trees", "tables"), only=ps)
     lib_py.unused_params(ctx, py, mods=("trees", "tables", "util"), only=ps)
+    lib_mem.c_lints(ctx, ctx.program(), scopes.lib_scope("C05"))
